@@ -440,6 +440,86 @@ def lookalike_redefinition_case(rng, counters, violations):
         violations.append(dict(wit, what="C03 %s: %s" % (wit["case"], "; ".join(problems[:3]))))
 
 
+def reregister_case(rng, counters, violations):
+    """A task is REPLACED by registering another task (or the same task object again) under the same task id, and
+    possibly unregistered afterwards: the manager must then be indistinguishable from a fresh one in which only the
+    surviving task was registered (once)."""
+    import xdeps
+    import xdeps.tasks as T
+
+    def data():
+        return {"a": 1.0, "b": 2.0, "x": 0.0, "y": 0.0, "n": {"p": 0.0, "q": 0.0}, "e": 0.0}
+
+    def mk(root, d, name, dep, tgt):
+        tref = {"x": root["x"], "y": root["y"], "p": root["n"]["p"], "q": root["n"]["q"]}[tgt]
+        dref = root[dep]
+
+        def action():
+            tref._set_value(dref._get_value() * 10 + 1)
+        return T.FunctionTask(name, action, targets={tref}, dependencies={dref})
+
+    variant = rng.choice(["same-object-twice", "other-task-same-id", "other-task-same-id", "knob-same-id"])
+    dep1, dep2 = rng.choice([("a", "b"), ("a", "a"), ("b", "a")])
+    tg1, tg2 = rng.choice([("x", "y"), ("x", "x"), ("p", "q"), ("p", "x"), ("y", "p")])
+    then_unreg = rng.random() < 0.5
+    wit = {"case": "%s (deps %s->%s, targets %s->%s)%s" % (variant, dep1, dep2, tg1, tg2, ", then unregister" if then_unreg else "")}
+    m, m2 = xdeps.Manager(), xdeps.Manager()
+    d, d2 = data(), data()
+    r, r2 = m.ref(d, "r"), m2.ref(d2, "r")
+    for root in (r, r2):
+        root["e"] = root["a"] + root["b"] + root["x"] + root["n"]["p"]          # an unrelated definition that must survive
+    try:
+        if variant == "same-object-twice":
+            t = mk(r, d, "T", dep1, tg1)
+            m.register(t)
+            m.register(t)
+            m2.register(mk(r2, d2, "T", dep1, tg1))
+        elif variant == "knob-same-id":
+            m.register(T.LinearKnob("T", r[dep1], [2.0], [r[tg1] if tg1 in "xy" else r["n"][tg1]]))
+            m.register(T.LinearKnob("T", r[dep2], [3.0], [r[tg2] if tg2 in "xy" else r["n"][tg2]]))
+            m2.register(T.LinearKnob("T", r2[dep2], [3.0], [r2[tg2] if tg2 in "xy" else r2["n"][tg2]]))
+        else:
+            m.register(mk(r, d, "T", dep1, tg1))
+            m.register(mk(r, d, "T", dep2, tg2))
+            m2.register(mk(r2, d2, "T", dep2, tg2))
+        if then_unreg:
+            m.unregister("T")
+            m2.unregister("T")
+    except Exception as exc:
+        violations.append(dict(wit, what="C03 task replaced by registering under the same id, %s: raised %s: %s" % (wit["case"], type(exc).__name__, str(exc)[:200])))
+        return
+    counters["reregister_cases"] = counters.get("reregister_cases", 0) + 1
+    problems = []
+    bad = mgrmon.index_violations(m)
+    if bad:
+        problems.append("index supports inconsistent with the registered tasks: %s" % bad[:3])
+    if str_supports(m) != str_supports(m2):
+        sa, sb = str_supports(m), str_supports(m2)
+        problems.append("index supports differ from the fresh manager: %s" % (
+            [(n_, k, sa[n_].get(k), sb[n_].get(k)) for n_ in sa for k in set(sa[n_]) | set(sb[n_]) if sa[n_].get(k) != sb[n_].get(k)][:3],))
+    for who, mm in (("manager with the history", m), ("fresh manager", m2)):
+        try:
+            mm.verify()
+        except Exception as exc:
+            problems.append("verify() of the %s raised: %s" % (who, str(exc)[:120]))
+    if not problems:
+        mgrmon_events = []
+        for key, val in (("a", 5.0), ("b", 4.0), ("a", 3.0), ("b", -1.0)):
+            out = []
+            for root in (r, r2):
+                try:
+                    root[key] = val
+                    out.append(None)
+                except Exception as exc:
+                    out.append("%s: %s" % (type(exc).__name__, str(exc)[:60]))
+            counters["twin_followups_compared"] = counters.get("twin_followups_compared", 0) + 1
+            if out[0] != out[1] or {k: canon(v) for k, v in d.items()} != {k: canon(v) for k, v in d2.items()}:
+                problems.append("after r[%r] = %r: %s, contents %s vs fresh manager %s" % (key, val, out, d, d2))
+                break
+    if problems:
+        violations.append(dict(wit, what="C03 task replaced by registering under the same id, %s: %s" % (wit["case"], "; ".join(problems[:3]))))
+
+
 def run_shard(spec):
     rng = random.Random("C03:%s:%s" % (spec["seed"], spec["shard"]))
     mgrmon.install_reach_counters()
@@ -463,6 +543,10 @@ def run_shard(spec):
         if violations:
             break
         lookalike_redefinition_case(rng, counters, violations)
+    for h in range(80 if not spec.get("replay") else 0):
+        if violations:
+            break
+        reregister_case(rng, counters, violations)
     for h in range(spec["histories"]):
         mgrmon.set_shuffle_rng(random.Random(rng.random()) if rng.random() < 0.5 else None)
         run_history(rng, counters, digests, samples, violations, known, rng.randrange(6, 28))
